@@ -51,13 +51,17 @@ Concrete(a) ==
 Steps(h) == <<InitStep>> \o [i \in 1..Len(h) |-> Concrete(h[i])]
 
 \* exhaustive short behaviours from later points: an envelope was produced (1); produced and consumed (2); a hand-made conforming envelope
-\* was signed and serialised (3)
+\* was signed and serialised (3); the same over a non-deterministic spelling of the protected map (4), and consumed (5)
 CONSTANT PrefixId
 Prod == [op |-> "produce", h |-> "s256", pay |-> "l32", pct |-> "none", loc |-> "none", base |-> "none", key |-> "k1", fault |-> ""]
+NcEdit == [op |-> "edit", what |-> "p", vp |-> [EInitObj.p EXCEPT !.nc = TRUE]]
 Prefix == CASE PrefixId = 0 -> <<>>
             [] PrefixId = 1 -> <<Prod>>
             [] PrefixId = 2 -> <<Prod, [op |-> "consume", key |-> "k1"]>>
             [] PrefixId = 3 -> <<[op |-> "sign", key |-> "k1", fault |-> ""], [op |-> "marshal"]>>
+            [] PrefixId = 4 -> <<NcEdit, [op |-> "sign", key |-> "k1", fault |-> ""], [op |-> "marshal"]>>          \* a conforming envelope signed over a non-deterministic spelling
+            [] PrefixId = 6 -> <<[op |-> "edit", what |-> "pay", v |-> "l31"], [op |-> "sign", key |-> "k1", fault |-> ""], [op |-> "marshal"]>>   \* validly signed, wrong digest length
+            [] PrefixId = 5 -> <<NcEdit, [op |-> "sign", key |-> "k1", fault |-> ""], [op |-> "marshal"], [op |-> "consume", key |-> "k1"]>>
 RECURSIVE After(_, _, _)
 After(o, w, h) == IF h = <<>> THEN [obj |-> o, wire |-> w] ELSE LET r == Step(o, w, Head(h)) IN After(r.obj, r.wire, Tail(h))
 GInit == LET s == After(EInitObj, ENoWire, Prefix) IN
